@@ -1445,9 +1445,10 @@ class FileDatastore(GenericBaseDatastore[StoredFileInfo]):
             Mapping from dataset to boolean indicating existence.
         """
         # The URIs to be checked and a mapping of those URIs to
-        # the dataset ID.
+        # the dataset IDs using them (several datasets can share one
+        # artifact).
         uris_to_check: list[ResourcePath] = []
-        location_map: dict[ResourcePath, DatasetId] = {}
+        location_map: dict[ResourcePath, list[DatasetId]] = {}
 
         location_factory = self.locationFactory
 
@@ -1455,7 +1456,8 @@ class FileDatastore(GenericBaseDatastore[StoredFileInfo]):
         for ref_id, infos in records.items():
             # Key is the dataset Id, value is list of StoredItemInfo
             uris = [info.file_location(location_factory).uri for info in infos]
-            location_map.update({uri: ref_id for uri in uris})
+            for uri in uris:
+                location_map.setdefault(uri, []).append(ref_id)
 
             # Check the local cache directly for a dataset corresponding
             # to the remote URI.
@@ -1489,18 +1491,19 @@ class FileDatastore(GenericBaseDatastore[StoredFileInfo]):
         dataset_existence: dict[DatasetRef, bool] = {}
 
         uri_existence.update(ResourcePath.mexists(uris_to_check))
-        for uri, exists in uri_existence.items():
-            dataset_id = location_map[uri]
-            ref = id_to_ref[dataset_id]
+        for uri, uri_exists in uri_existence.items():
+            for dataset_id in location_map[uri]:
+                ref = id_to_ref[dataset_id]
+                exists = uri_exists
 
-            # Disassembled composite needs to check all locations.
-            # all_required indicates whether all need to exist or not.
-            if ref in dataset_existence:
-                if all_required:
-                    exists = dataset_existence[ref] and exists
-                else:
-                    exists = dataset_existence[ref] or exists
-            dataset_existence[ref] = exists
+                # Disassembled composite needs to check all locations.
+                # all_required indicates whether all need to exist or not.
+                if ref in dataset_existence:
+                    if all_required:
+                        exists = dataset_existence[ref] and exists
+                    else:
+                        exists = dataset_existence[ref] or exists
+                dataset_existence[ref] = exists
 
         if artifact_existence is not None:
             artifact_existence.update(uri_existence)
